@@ -312,7 +312,11 @@ static void run_table(Json& js, vh::Rng& rng, int reps) {
                         auto same = [](double p, double q) { return p == q && std::signbit(p) == std::signbit(q); };
                         const arr_real nx = -x, sx = x + y, dx = x - y, mx = x * y;
                         const arr_cmplx nu = -u, su = u + v, du = u - v;
+                        // scalar on either side (real): the same single IEEE operation per element
+                        const arr_real sl = a - y, sr = y - a, pl = a + y, pr = y + a, ml = a * y, mr = y * a;
                         for (int i = 0; i < 2; ++i) {
+                            ok = ok && same(sl[i], a - y[i]) && same(sr[i], y[i] - a) && same(pl[i], a + y[i]) && same(pr[i], y[i] + a);
+                            ok = ok && same(ml[i], a * y[i]) && same(mr[i], y[i] * a);
                             ok = ok && same(nx[i], -x[i]) && same(sx[i], x[i] + y[i]) && same(dx[i], x[i] - y[i]) && same(mx[i], x[i] * y[i]);
                             ok = ok && same(nu[i].re, -u[i].re) && same(nu[i].im, -u[i].im);
                             ok = ok && same(su[i].re, u[i].re + v[i].re) && same(su[i].im, u[i].im + v[i].im);
